@@ -3,10 +3,9 @@ CONSTANTS
   MaxEntry = 4
   BufSize = 12
   DepthLimit = 100
-  EmptyGuard = TRUE
+  EmptyGuard = FALSE
   MaxLines = 0
   MinLen = 1
   MaxLen = 3
 VIEW View
 PROPERTY Refines
-INVARIANTS TargetInRange Premise PositionOnLine BufferCovers SearchInterval DepthBounded NLBelowAgrees NeverFragment
